@@ -453,6 +453,25 @@ func GenWorld(r *Run, o GenOpts) *World {
 				r.Probe("name-from-source-dictionary")
 			}
 		}
+		if i > 0 && !o.Par1 && !o.NoSubdirs && strings.Contains(w.Files[i-1].Name, "/") && t.Bool(1, 6, "directory-name-extends-previous") {
+			// a sibling directory whose name merely begins with the name of
+			// the previous file's directory (d1 and d10, sub and sub-old)
+			prev := w.Files[i-1].Name
+			cand := filepath.Dir(prev) + []string{"0", "2", "-old", ".bak", " (copy)", "_"}[t.Draw(6, "dir-suffix")] + "/" + fmt.Sprintf("g%d", i)
+			if t.Bool(1, 2, "same-base") {
+				cand = filepath.Dir(cand) + "/" + filepath.Base(prev)
+			}
+			used := false
+			for _, f := range w.Files {
+				if f.Name == cand {
+					used = true
+				}
+			}
+			if !used && !strings.Contains(prev, "\\") {
+				name = cand
+				r.Probe("directory-name-extends-another")
+			}
+		}
 		if i > 0 && t.Bool(1, 14, "name-extends-previous") {
 			// the previous file's name with a suffix that temporary or backup
 			// copies usually get: both are protected files of the set
